@@ -115,8 +115,12 @@ func report(p *Program, results []*Result, prop, tier, verif string, loadMs int6
 		}
 		intersect := os.Getenv("GOVC_LOCK_INTERSECT") != ""
 		for _, r := range results {
+			if r.Status == "deferred" && prev[r.Oblig] && !r.Vacuity {
+				names = append(names, r.Oblig) // thorough-tier obligation, locked by a thorough run
+				continue
+			}
 			// only obligations that discharge well inside the quick budget are claimed
-			if r.Status == "proved" && !r.Vacuity && !r.Bounded && hasProp(r, prop) && r.Millis < lockBudget(r) && r.ExecMs < 8000 {
+			if r.Status == "proved" && !r.Vacuity && !r.Bounded && hasProp(r, prop) && r.Millis < lockBudget(r) && (r.ExecMs < 8000 || r.Thorough) {
 				if intersect && !prev[r.Oblig] {
 					continue
 				}
@@ -130,7 +134,7 @@ func report(p *Program, results []*Result, prop, tier, verif string, loadMs int6
 			bprev[n] = true
 		}
 		for _, r := range results {
-			if r.Status == "proved" && !r.Vacuity && r.Bounded && hasProp(r, prop) && r.Millis < lockBudget(r) && r.ExecMs < 8000 {
+			if r.Status == "proved" && !r.Vacuity && r.Bounded && hasProp(r, prop) && r.Millis < lockBudget(r) && (r.ExecMs < 8000 || r.Thorough) {
 				if intersect && !bprev[r.Oblig] {
 					continue
 				}
@@ -167,6 +171,7 @@ func report(p *Program, results []*Result, prop, tier, verif string, loadMs int6
 		return nil
 	}
 	discharged := 0
+	deferred := 0
 	violations := 0
 	var undecided, knownHit, notClaimed, samples []any
 	backends := map[string]int{}
@@ -207,6 +212,9 @@ func report(p *Program, results []*Result, prop, tier, verif string, loadMs int6
 			trusted[t] = true
 		}
 		if r.Vacuity {
+			if r.Status == "deferred" {
+				continue
+			}
 			vacuityChecked++
 			if r.Status != "refuted" {
 				vacuityBad++
@@ -241,6 +249,8 @@ func report(p *Program, results []*Result, prop, tier, verif string, loadMs int6
 			continue
 		}
 		switch r.Status {
+		case "deferred":
+			deferred++
 		case "proved":
 			discharged++
 			if len(samples) < 12 {
@@ -329,6 +339,7 @@ func report(p *Program, results []*Result, prop, tier, verif string, loadMs int6
 		"coverage": map[string]any{
 			"obligations":              len(claimed),
 			"discharged":               discharged,
+			"deferred_to_thorough_tier": deferred,
 			"checker_cmd":              fmt.Sprintf("./check %s %s", prop, tier),
 			"trusted_base":             append([]string{"govc VC generator (/verif/govc)", "golang.org/x/tools/go/ssa v0.29.0", "z3 5.1.0 (z3-new), z3 4.8.12, cvc5 1.0 (portfolio, first definite answer)"}, tl...),
 			"samples":                  samples,
@@ -354,7 +365,7 @@ func report(p *Program, results []*Result, prop, tier, verif string, loadMs int6
 	os.MkdirAll(filepath.Join(verif, "evidence"), 0o755)
 	b, _ := json.MarshalIndent(ev, "", " ")
 	os.WriteFile(filepath.Join(verif, "evidence", prop+".json"), append(b, '\n'), 0o644)
-	fmt.Printf("evidence: %s obligations=%d discharged=%d violations=%d undecided=%d\n", prop, len(claimed), discharged, violations, len(undecided))
+	fmt.Printf("evidence: %s obligations=%d discharged=%d deferred-to-thorough=%d violations=%d undecided=%d\n", prop, len(claimed), discharged, deferred, violations, len(undecided))
 	return code
 }
 
@@ -371,8 +382,12 @@ func seedFromEnv() int {
 	return v
 }
 
-// lockBudget: an obligation is claimed only when it discharges within a quarter of its solver budget.
+// lockBudget: an obligation is claimed only when it discharges within a quarter of its solver budget
+// (thorough-tier items: proved in two consecutive thorough runs, whatever the time).
 func lockBudget(r *Result) int64 {
+	if r.Thorough {
+		return 1 << 60
+	}
 	if r.BudgetMs > 0 {
 		return r.BudgetMs / 4
 	}
